@@ -19,4 +19,19 @@ CHECKS = {
            "theorems assume HDF5 includes are leaves (H5Leaf); path normalisation without symlinks; single-file parsing by "
            "lxml/PyTables not modelled."),
  },
+ "C01": {
+  "category": "proof",
+  "technique": "Lean 4 proof over a binding table regenerated from nml.py (kernel-checked WF) + export/build correspondence",
+  "design_ref": "DESIGN.md §4.1, §5 C01",
+  "text": ("translators/nml_extract.py reduces the 199 generated classes of nml.py to a binding table (Gen/Bindings.lean, regenerated "
+           "every run; any unrecognised statement is a gap). Lean proves, for EVERY table satisfying the decidable predicate WF, that "
+           "build(export o) = o for every conforming object tree of any size/depth (roundtrip, c01_roundtrip_any_table); the kernel "
+           "re-checks WF on today's table each run (table_wf, decide +kernel) giving c01_roundtrip for all 199 types and all own and "
+           "inherited members. The interpreter is tied to the real export/build by a correspondence stream over all 199 classes, and "
+           "the full write/read property is evaluated on the real code with a MemberSpec-driven dump independent of the translator."),
+  "note": ("Trusted: Lean kernel; the translator (AST shapes, canonical lexical forms of defaults); scalars modelled by their canonical "
+           "lexical form so CPython float/int formatting+parsing and lxml entity decoding/attribute normalisation are trusted and sampled; "
+           "xsi:type polymorphism and xs:any content outside the model; Conforms excludes out-of-range integers, TAB/CR in strings, None "
+           "under a != default guard; text level: open finding C01:cdata-in-text."),
+ },
 }
